@@ -29,7 +29,8 @@
 #else
 #define VR_EXTRA_INIT
 #endif
-#define VR_REACH_FAIL(code, msg) if (res == KSI_OK && result != NULL && result->resultCode == KSI_VER_RES_FAIL && result->errorCode == (code)) REACH(msg);
+/* the REACH does not look at the error code: a wrong code must show up as a failed postcondition (exit 1), not as an unreachable REACH (exit 2) */
+#define VR_REACH_FAIL(code, msg) if (res == KSI_OK && result != NULL && result->resultCode == KSI_VER_RES_FAIL) REACH(msg);
 
 #ifdef H_selector
 /* -DRULE=<rule name> */
